@@ -426,6 +426,19 @@ def scenarios(tier="quick"):
     s, _ = _pre(base_cfg(deb=5)); s.put(A, "hello"); s.put(B, "world!"); s.start(); s.write(7, A); s.write(7, B); s.write(7, A); s.add("stop")
     add("start_existing_queue", s, ["start %s %d %s" % (s.cfgid, CPL, hexs(CFG_PATH))])
 
+    # a queue whose pending links span a digit-count boundary (3 .. 12) is found by a restart
+    s, _ = _pre(base_cfg(deb=5)); s.start()
+    fl = [WATCH + "/inc/f%02d.txt" % i for i in range(13)]
+    for i, f in enumerate(fl):
+        s.put(f, "content %d" % i)
+    for f in fl[:3]:
+        s.write(7, f)
+    s.tick(6)
+    for f in fl[3:]:
+        s.write(7, f)
+    s.timeout(); s.add("stop")
+    add("start_long_queue", s, ["start %s %d %s" % (s.cfgid, CPL, hexs(CFG_PATH))])
+
     s, _ = _pre(); s.start()
     add("exec_editor_elf", s, ["exec 5 " + hexs(X + "/elf/vim")])
 
@@ -566,7 +579,7 @@ def gen_copy_case(rng):
         else:
             s.putn(f, size, rng.randint(0, 25))
         s.write(3, f)
-        change = rng.choice(["none", "none", "rewrite", "delete", "directory", "unreadable", "grow"])
+        change = rng.choice(["none", "none", "rewrite", "delete", "directory", "unreadable", "grow", "parent_file"])
         if change == "rewrite":
             s.put(f, "rewritten")
         elif change == "grow":
@@ -578,6 +591,13 @@ def gen_copy_case(rng):
             s.mkdirp(f)
         elif change == "unreadable":
             s.chmod(f, False)
+        elif change == "parent_file" and f.count("/") > WATCH.count("/") + 1 and \
+                not any(g != f and g.startswith(f.rsplit("/", 1)[0] + "/") for g in files):
+            # the directory the file lived in is replaced by a regular file: open() says ENOTDIR, the source is gone
+            d = f.rsplit("/", 1)[0]
+            s.rm(f)
+            s.add("rmdir %s" % hexs(d))
+            s.put(d, "not a directory any more")
     s.tick(1)
     s.dump()
     s.timeout()
@@ -623,6 +643,7 @@ def gen_project_case(rng):
     files = [WATCH + "/proj/README", WATCH + "/proj/src/m.c", WATCH + "/proj/src/deep/x/y.h", WATCH + "/pp/p1/f.c",
              WATCH + "/pp/p1/sub/g.c", WATCH + "/pp/p2/h", WATCH + "/pp/loose.txt", WATCH + "/inc/a.txt"]
     exists = set()
+    blockers = set()
     n = 0
     if rng.random() < 0.25:
         # the project store is unusable for a while (a stray regular file where its directory belongs): the pass that
@@ -647,6 +668,10 @@ def gen_project_case(rng):
         f = rng.choice(files)
         if r < 0.5:
             n += 1
+            for b in sorted(blockers):
+                if f.startswith(b + "/"):
+                    s.rm(b)
+                    blockers.discard(b)
             s.put(f, "c%d" % n)
             exists.add(f)
             s.write(3, f)
@@ -660,6 +685,11 @@ def gen_project_case(rng):
                     if any(e.startswith(d + "/") for e in exists):
                         break
                     s.add("rmdir %s" % hexs(d))
+                    if rng.random() < 0.4:
+                        # ... and a regular file takes the directory's name (access() below it: ENOTDIR, not ENOENT)
+                        s.put(d, "now a file")
+                        blockers.add(d)
+                        break
                     d = d.rsplit("/", 1)[0]
         elif r < 0.72:
             s.tick(rng.choice([0, 1, 2, 3]))
@@ -688,8 +718,12 @@ def gen_journal_case(rng):
     ncalls = 0
     for _ in range(rng.randint(5, 20)):
         r = rng.random()
-        if rng.random() < 0.3:
+        rr = rng.random()
+        if rr < 0.25:
             s.oracle("short", rng.randint(0, 30), rng.randint(1, 9))
+        elif rr < 0.45:
+            # every write of the operation is cut: a journal line goes out in three or more pieces
+            s.oracle("shortall", rng.choice([1, 2, 3, 5, 9]))
         if r < 0.2:
             s.exec(rng.choice([3, 4]), rng.choice([X + "/vim", X + "/cat"]))
         elif r < 0.6:
